@@ -13,12 +13,13 @@ from sv import core
 
 PROPERTY = "C18"
 GEN = ["FlipFlop"]
-PROPS = ["ScoresVerif/Props/C18.lean", "ScoresVerif/Props/C18Sector.lean"]
+PROPS = ["ScoresVerif/Props/C18.lean", "ScoresVerif/Props/C18Sector.lean", "ScoresVerif/Props/C18Inf.lean"]
 AUDIT_FILES = ["ScoresVerif/Lemmas/FlipFlop.lean", "ScoresVerif/Lemmas/FlipFlopC18Base.lean", "ScoresVerif/Lemmas/FlipFlopC18Defs.lean",
                "ScoresVerif/Lemmas/FlipFlopC18Core.lean", "ScoresVerif/Lemmas/FlipFlopC18Model.lean",
                "ScoresVerif/Lemmas/FlipFlopC18Gap.lean", "ScoresVerif/Lemmas/FlipFlopC18Nan.lean", "ScoresVerif/Lemmas/FlipFlopC18Skipna.lean",
                "ScoresVerif/Lemmas/FlipFlopC18Mixed.lean", "ScoresVerif/Lemmas/FlipFlopC18Rotate.lean",
-               "ScoresVerif/Lemmas/FlipFlopC18SkipnaNan.lean", "ScoresVerif/Model/FlipFlop.lean", "ScoresVerif/Spec/FlipFlop.lean"]
+               "ScoresVerif/Lemmas/FlipFlopC18SkipnaNan.lean", "ScoresVerif/Lemmas/FlipFlopC18Inf.lean", "ScoresVerif/Model/FlipFlop.lean",
+               "ScoresVerif/Spec/FlipFlop.lean", "ScoresVerif/Spec/FlipFlopC18Inf.lean"]
 DRIVER_DEPS = ["ScoresVerif.Driver.C18"]
 LEVEL = "proof"
 TRUSTED = ["numpy sort / roll / argmax / mod and xarray shift / sum(skipna) / max(skipna=False) / sel / mean behave as modelled in "
@@ -28,7 +29,8 @@ TRUSTED = ["numpy sort / roll / argmax / mod and xarray shift / sum(skipna) / ma
 ASSUMPTIONS = ["sequence values are small dyadic numbers, angles lie on a 5 degree lattice (possibly rotated by a dyadic amount), so "
                "differences, % 360 and comparisons are exact in float64; quotients by N-2 are compared to 1e-9",
                "threshold ties in proportion-exceeding are only generated for N-2 a power of two (exact quotient)",
-               "float rounding, overflow, signed zero and infinite values are not modelled",
+               "float rounding, overflow, signed zero and infinite DATA values are not modelled; infinite THRESHOLDS (-inf / +inf as "
+               "open-ended bounds of proportion exceeding) are: model, spec (Spec.proportionExt) and theorems (Props/C18Inf.lean)",
                "storage dtypes (uint8-64, int8-64, float32) are compared by value: the model / spec are evaluated on the same numbers as "
                "exact rationals (they do not depend on the dtype); magnitudes <= 2**40; results computed in float32 (float32 and <= 16-bit "
                "integer storage) are compared to 1e-6; three dtype classes fail on the unchanged code and are known findings "
@@ -40,7 +42,8 @@ MANIFEST = dict(
          "run: on finite data the index equals (sum|x_{i+1}-x_i| - (max-min))/(N-2); it is >= 0; it is 0 exactly for monotone sequences "
          "(both directions of the equivalence); it is invariant under adding a constant, negation and reversal and scales with |c|; it is NaN iff the "
          "sequence contains a NaN; a selection gives the index of the selected sub-sequence normalised by its own length; "
-         "proportion-exceeding is the fraction of valid indices >= t; for directional data successive changes are circular "
+         "proportion-exceeding is the fraction of valid indices >= t, also for the open-ended bounds t = -inf (1) and t = +inf (0), "
+         "NaN only without a valid index; for directional data successive changes are circular "
          "differences, the range is the sector value capped at 180; the model of _encompassing_sector_size_np (sort, roll, folded "
          "differences, argmax, rotation, n_unique <= 2 branch) returns, for NaN-free directions of any length >= 1, the smallest covering "
          "arc = 360 - largest cyclic gap between distinct directions mod 360 (skipna=False: NaN as soon as one direction is NaN/inf; "
@@ -53,7 +56,7 @@ MANIFEST = dict(
          "sets.  Trusted: Lean "
          "kernel; propext/Classical.choice/Quot.sound; py2lean + tools/gen/FlipFlop.py; SV.Fl; the hand model of numpy "
          "sort/roll/argmax/% and xarray shift/sum/max/sel/mean; tolerance 1e-9 on dyadic / 5-degree-lattice inputs.  Not modelled: "
-         "infinities, float rounding, Dataset inputs of iter_selections.",
+         "infinite data values, float rounding, Dataset inputs of iter_selections.",
     technique="Lean 4 theorems over a hand model + translator-regenerated pointwise pieces; exhaustive small-pool differential "
               "correspondence; exact-rational oracle with relational laws",
     design="6/C18")
@@ -61,7 +64,9 @@ RULE = ("all sequences of length 3-5 over a 3-value pool, all angle tuples of si
         "lattice, random sequences of length 3-6 over small pools with ties / NaN / extra dims, angle sets on a 5 degree lattice "
         "beyond [0,360) with antipodal pairs, duplicates, equal and exactly-180 gaps, dyadic rotations; the same kinds of sequences "
         "stored as uint8/16/32/64, int8/16/32/64 (values at the dtype limits) and float32, 1-D and in arrays with selections / "
-        "proportion exceeding; distinct = distinct "
+        "proportion exceeding; thresholds of proportion exceeding include -inf / +inf (40 % of the threshold lists, plus fixed "
+        "cases around the documented example), and the discretisation stage alone (comparative_discretise all six modes / "
+        "proportion_exceeding on finite-or-NaN values against thresholds with -inf / +inf); distinct = distinct "
         "canonical case; non-trivial = a finite result")
 
 
@@ -388,7 +393,7 @@ def correspondence(ctx):
     # would only switch the oracle to its boosted budget on every run)
     check_typed(ctx, [t for t in typed_stream(ctx) if not (finite(t[0]) and dtype_finding(*t))], "correspondence", "impl-vs-model-dtypes")
     # arrays with extra dims, selections, proportion exceeding
-    arr_cases = [gen_array_case(rng) for _ in range(ctx.n(120, 1200))]
+    arr_cases = fixed_array_cases() + [gen_array_case(rng) for _ in range(ctx.n(120, 1200))]
     run_arrays(ctx, arr_cases, "impl-vs-model-arrays", "correspondence")
     # malformed: the sampling dim among the dims to preserve / reduce must raise (DimensionError is a ValueError)
     from scores.continuous import flip_flop_index_proportion_exceeding
@@ -406,6 +411,41 @@ def correspondence(ctx):
 
 
 # ----------------------------------------------------------------------------- arrays: extra dims, selections, proportion
+INF = float("inf")
+
+
+def with_infinite_bounds(rng, thresholds):
+    """a sorted threshold list with -inf and / or +inf as open-ended bounds (sometimes nothing but the bounds)"""
+    r = rng.random()
+    lo, hi = r < 0.75, r < 0.5 or r >= 0.75      # both 50 %, only -inf 25 %, only +inf 25 %
+    ts = ([-INF] if lo else []) + (list(thresholds) if rng.random() < 0.85 else []) + ([INF] if hi else [])
+    return ts
+
+
+def fixed_array_cases():
+    """the documented example (indices 15, 40, 10), a NaN row and a monotone row (index 0), with the open-ended bounds
+    -inf / +inf among the thresholds: no selections, selections, reductions over an extra dimension"""
+    rows = [[50.0, 20.0, 40.0, 80.0], [10.0, 50.0, 10.0, 100.0], [0.0, 30.0, 20.0, 50.0], [5.0, float("nan"), 7.0, 9.0],
+            [1.0, 2.0, 3.0, 4.0]]
+    base = dict(angular=False, n=4, coords=[1, 2, 3, 4], dtype="float64")
+    ts = [-INF, 0.0, 10.0, 15.0, 45.0, INF]
+    out = [dict(base, extras=["stn"], sizes={"stn": 5}, order=["stn", "lead"], data=rows, kind="prop", sels={}, thresholds=ts, req=None),
+           dict(base, extras=["stn"], sizes={"stn": 5}, order=["stn", "lead"], data=rows, kind="propsel",
+                sels={"first3": [1, 2, 3], "all_days": [1, 2, 3, 4]}, thresholds=ts, req=None),
+           dict(base, extras=["stn"], sizes={"stn": 5}, order=["stn", "lead"], data=rows, kind="prop", sels={}, thresholds=[-INF, INF],
+                req=["preserve", ["stn"]]),
+           dict(base, extras=["stn"], sizes={"stn": 5}, order=["lead", "stn"], data=np.array(rows).T.tolist(), kind="propsel",
+                sels={"rev": [4, 3, 2, 1]}, thresholds=[-INF], req=["reduce", "all"]),
+           dict(base, extras=[], sizes={}, order=["lead"], data=rows[0], kind="prop", sels={}, thresholds=[15.0, INF], req=None),
+           dict(base, extras=[], sizes={}, order=["lead"], data=rows[3], kind="prop", sels={}, thresholds=[-INF, 0.0, INF], req=None),
+           dict(base, extras=["stn"], sizes={"stn": 5}, order=["stn", "lead"], data=[[int(x) for x in r] for r in rows[:3] + rows[4:] + rows[:1]],
+                kind="prop", sels={}, thresholds=ts, req=None, dtype="int64"),
+           dict(base, angular=True, extras=["stn"], sizes={"stn": 3}, order=["stn", "lead"],
+                data=[[350.0, 10.0, 350.0, 10.0], [0.0, 90.0, 180.0, 270.0], [10.0, 20.0, 30.0, 40.0]], kind="prop", sels={},
+                thresholds=[-INF, 0.0, 10.0, 20.0, INF], req=None)]
+    return out
+
+
 def gen_array_case(rng):
     ang = rng.random() < 0.4
     n = rng.choice([3, 4, 4, 6, 5])
@@ -462,6 +502,10 @@ def gen_array_case(rng):
         if dtype not in ("float64", "float32") and not ang:
             pool = pool + [100.1, 250.3, 65000.7, 1e9 + 0.3]
         thresholds = sorted(rng.sample(pool, rng.randint(1, 3)))
+        if rng.random() < 0.4:
+            # open-ended bounds: every valid index is >= -inf (proportion 1), none is >= +inf (proportion 0); NaN only
+            # where there is no valid index at all
+            thresholds = with_infinite_bounds(rng, thresholds)
         mode = rng.choice(["none", "reduce", "preserve", "reduce_all", "preserve_all"])
         if mode == "reduce":
             req = ["reduce", rng.sample(extras, rng.randint(0, len(extras)))]
@@ -576,6 +620,8 @@ def run_arrays(ctx, cases, batch, kind):
         ctx.tag("arr-" + c["kind"] + ("-ang" if c["angular"] else "-lin"))
         if c.get("dtype", "float64") != "float64":
             ctx.tag("arr-dtype-" + c["dtype"])
+        if c["thresholds"] is not None and any(math.isinf(t) for t in c["thresholds"]):
+            ctx.tag("arr-threshold-" + "".join(sorted({"-inf" if t < 0 else "+inf" for t in c["thresholds"] if math.isinf(t)})))
         da = _da(c)
         site = "flip_flop_index_proportion_exceeding" if c["thresholds"] is not None else "flip_flop_index"
         sels = {k: list(v) for k, v in c["sels"].items()}
@@ -730,6 +776,67 @@ def check_angular(ctx, seqs, batch="angular-vs-spec"):
                          observed=s3, expected=sp["sector"])
 
 
+# the discretisation stage of proportion exceeding on its own: finite (or NaN) index values against thresholds that include the
+# open-ended bounds -inf / +inf.  Expected values come from the exact numbers: NaN where the value is NaN, else 1 / 0 by the
+# comparison in the extended reals (v >= -inf, v < +inf for every finite v); the proportion is the mean of the non-NaN flags.
+DISC_MODES = {">=": lambda v, t: v >= t, ">": lambda v, t: v > t, "<=": lambda v, t: v <= t, "<": lambda v, t: v < t,
+              "==": lambda v, t: v == t, "!=": lambda v, t: v != t}
+
+
+def gen_disc_case(rng):
+    n = rng.randint(1, 6)
+    pool = rng.choice(LIN_POOLS) + [0.0, 15.0, 40.0]
+    vals = [rng.choice(pool) for _ in range(n)]
+    for i in range(n):
+        if rng.random() < 0.2:
+            vals[i] = float("nan")
+    ts = with_infinite_bounds(rng, sorted(set(rng.choice(pool) for _ in range(rng.randint(0, 2)))))
+    return {"disc": vals, "thresholds": ts, "mode": rng.choice([">=", ">=", ">=", ">", "<=", "<", "==", "!="]),
+            "dtype": rng.choice(["float64", "float64", "float32"])}
+
+
+def fixed_disc_cases():
+    return [{"disc": [15.0, 40.0, 10.0, float("nan"), 0.0], "thresholds": [-INF, 0.0, 10.0, 15.0, 45.0, INF], "mode": m, "dtype": "float64"}
+            for m in DISC_MODES] + [{"disc": [float("nan")], "thresholds": [-INF, INF], "mode": ">=", "dtype": "float64"},
+                                    {"disc": [2.0], "thresholds": [INF], "mode": ">=", "dtype": "float32"}]
+
+
+def check_discretise(ctx, cases, batch="discretise-infinite-thresholds"):
+    from scores.processing import comparative_discretise, proportion_exceeding
+    for c in cases:
+        vals = [float(v) for v in c["disc"]]
+        ts = [float(t) for t in c["thresholds"]]
+        mode = c["mode"]
+        ctx.case(batch, c, nontrivial=any(not math.isnan(v) for v in vals))
+        ctx.tag("disc-" + mode)
+        exp = [[float("nan") if math.isnan(v) else float(DISC_MODES[mode](v, t)) for t in ts] for v in vals]
+        da = xr.DataArray(np.array(vals, dtype=c["dtype"]), dims=["stn"])
+        thr = xr.DataArray(np.array(ts, dtype=float), dims=["threshold"], coords={"threshold": ts})
+        try:
+            with np.errstate(all="ignore"), warnings.catch_warnings():
+                warnings.simplefilter("ignore")
+                got = comparative_discretise(da, thr, mode).transpose("stn", "threshold").values.astype(float).tolist()
+                prop = proportion_exceeding(da, list(ts)).values.astype(float).tolist() if mode == ">=" else None
+        except Exception as ex:
+            ctx.fail(batch, "property", "comparative_discretise", "exception", c, observed=core.exc_class(ex) + ": " + str(ex)[:160],
+                     expected="a value")
+            continue
+        if not all(core.close_ff(a, b) for ra, rb in zip(got, exp) for a, b in zip(ra, rb)):
+            ctx.fail(batch, "property", "comparative_discretise", "flag-differs-from-comparison", c, observed=fls2(got), expected=fls2(exp),
+                     tags={"mode": mode})
+            continue
+        if prop is not None:
+            valid = [v for v in vals if not math.isnan(v)]
+            pe = [Fraction(sum(1 for v in valid if v >= t), len(valid)) if valid else "nan" for t in ts]
+            if len(prop) != len(pe) or not all(core.close(a, b) for a, b in zip(prop, pe)):
+                ctx.fail(batch, "property", "proportion_exceeding", "not-the-fraction-of-valid-values", c, observed=fls(prop),
+                         expected=[str(x) for x in pe], tags={"mode": mode})
+
+
+def fls2(rows):
+    return [fls(r) for r in rows]
+
+
 def oracle(ctx, boost):
     rng = ctx.rng
     k = 5 if boost else 1
@@ -741,13 +848,18 @@ def oracle(ctx, boost):
     ang += [gen_angles(rng) for _ in range(ctx.n(500, 5000) * k)]
     check_angular(ctx, ang)
     check_typed(ctx, typed_stream(ctx, k), "property", "dtypes-vs-spec")
-    run_arrays(ctx, [gen_array_case(rng) for _ in range(ctx.n(120, 1200) * k)], "arrays-vs-spec", "property")
+    run_arrays(ctx, fixed_array_cases() + [gen_array_case(rng) for _ in range(ctx.n(120, 1200) * k)], "arrays-vs-spec", "property")
+    check_discretise(ctx, fixed_disc_cases() + [gen_disc_case(rng) for _ in range(ctx.n(150, 1500) * k)])
 
 
 def replay(ctx, payload):
     case = payload["case"]
     sub = core.Ctx("C18", "quick", payload.get("seed", 0))
-    if "order" in case:
+    if "disc" in case:
+        check_discretise(sub, [case], "replay")
+    elif "order" in case:
+        if case.get("thresholds") is not None:      # the replay file stores non-finite numbers as strings ("-inf", "inf")
+            case = dict(case, thresholds=[float(t) for t in case["thresholds"]])
         run_arrays(sub, [case], "replay", "property")
     elif "dtype" in case:
         dt = case["dtype"]
